@@ -11,8 +11,17 @@
    and a non-zero turn-rate sum. *)
 From Coq Require Import Reals List.
 From SM.specs Require Import C02_spec.
-From SM.proofs Require Import Conservation.
+From SM Require Import Num NumR Engine.
+From SM.proofs Require Import Conservation ModelCorollaries StepSpec.
 
 Theorem C02_conservation : conservation.
 Proof. exact conservation_proof. Qed.
 Print Assumptions C02_conservation.
+
+(* on the model: the step of a valid network returns the values the balances are stated on (regenerated engines) *)
+Theorem C02_model_conserves_numpy : model_conserves (@np_engine R NumR).
+Proof. exact (model_conserves_proof _ np_step_is_METANET). Qed.
+Print Assumptions C02_model_conserves_numpy.
+Theorem C02_model_conserves_casadi : model_conserves (@cs_engine R NumR).
+Proof. exact (model_conserves_proof _ cs_step_is_METANET). Qed.
+Print Assumptions C02_model_conserves_casadi.
